@@ -131,3 +131,35 @@ Theorem C16_server_le_only_after_client : forall tp hist,
   (~ In C16_protoDataC2SLowEntropy hist -> send = false /\ m = C16_leModeOff /\ r = C16_leRotNone).
 Proof. exact server_le_only_after_client. Qed.
 Print Assumptions C16_server_le_only_after_client.
+
+(* TCP fragmentation (writeWithPossibleFragment): for every buffer, every pattern and every sequence of draws the
+   conn.Write calls carry exactly the buffer's bytes in order; with fragmentation on every piece is non-empty and
+   the loop ends after at most n pieces *)
+Theorem C16_tcp_fragment_same_bytes : forall tp data draws,
+  concat (tcp_writes tp data draws) = data /\
+  (fragments_enabled tp = true -> Forall (fun p => p <> []) (tcp_writes tp data draws) /\
+                                  (length (tcp_writes tp data draws) <= length data)%nat).
+Proof. exact tcp_fragment_same_bytes. Qed.
+Print Assumptions C16_tcp_fragment_same_bytes.
+
+(* the setting is honoured: enable = true (and only that) fragments - every piece within [1, max(isqrt n + 1, n/2)],
+   which is < n from n = 3 on, hence at least two writes; otherwise exactly one write of the whole buffer;
+   a sleep is drawn only when maxSleepMs > 0 and lies in [0, maxSleepMs] *)
+Theorem C16_tcp_fragment_honoured : forall tp data draws,
+  let n := Z.of_nat (length data) in
+  (fragments_enabled tp = true ->
+     Forall (fun p => 1 <= Z.of_nat (length p) <= Z.max (Z.sqrt n + 1) (n / 2)) (tcp_writes tp data draws) /\
+     (3 <= n -> (2 <= length (tcp_writes tp data draws))%nat /\ Z.max (Z.sqrt n + 1) (n / 2) < n)) /\
+  (fragments_enabled tp = false -> tcp_writes tp data draws = [data]) /\
+  (fragments_enabled tp = true <-> sub (sub tp tp_tcp) tf_enable = Some true) /\
+  (forall d s, frag_sleep tp d = Some s ->
+     0 <= s <= getZ (sub (sub tp tp_tcp) tf_max_sleep) /\ 0 < getZ (sub (sub tp tp_tcp) tf_max_sleep)) /\
+  (getZ (sub (sub tp tp_tcp) tf_max_sleep) <= 0 -> forall d, frag_sleep tp d = None).
+Proof. exact tcp_fragment_honoured. Qed.
+Print Assumptions C16_tcp_fragment_honoured.
+
+(* the threshold is exact: a buffer of 1 or 2 bytes leaves in one piece whatever is drawn *)
+Theorem C16_tcp_fragment_small : forall data draws,
+  (1 <= length data <= 2)%nat -> fragment_plan data draws = [data].
+Proof. exact tcp_fragment_small. Qed.
+Print Assumptions C16_tcp_fragment_small.
